@@ -70,6 +70,13 @@ func accessOneR(r *packet.Registers, op string, keep *retainer, idx int) (out st
 		}
 		return "ok " + s
 	}
+	if name == "wbo" {
+		// the view is configured again in the middle of the sequence
+		if r.WithByteOrder(packet.ByteOrder(addr)) != r {
+			return "ok set OTHER-VALUE-RETURNED"
+		}
+		return "ok set"
+	}
 	if strings.HasPrefix(name, "F") {
 		// the same read through Field.ExtractFrom of the request builder
 		ft, ok := map[string]modbus.FieldType{"bit": modbus.FieldTypeBit, "byte": modbus.FieldTypeByte, "u8": modbus.FieldTypeUint8,
@@ -271,9 +278,17 @@ func execRegs(ts []string) string {
 	}
 	after := hx(d[:len(data)])
 	solo := make([]string, len(ops))
+	cur := -1
 	for i, op := range ops {
 		r2, _, _ := mk()
+		if cur >= 0 {
+			// alone = on a fresh view configured with the order in force at this point of the sequence
+			r2 = r2.WithByteOrder(packet.ByteOrder(cur))
+		}
 		solo[i] = accessOne(r2, op)
+		if strings.HasPrefix(op, "wbo@") {
+			cur = atoi(op[4:])
+		}
 	}
 	return strings.Join(seq, ";") + " | " + strings.Join(solo, ";") + " after=" + after
 }
